@@ -175,3 +175,9 @@ Proof.
   unfold fb, fbits, b64_of_bits, bits_of_b64.
   exact (binary_float_of_bits_of_binary_float 52 11 (eq_refl _) (eq_refl _) (eq_refl _) f).
 Qed.
+
+Lemma flt_asym (a b : f64) : flt a b = true -> flt b a = false.
+Proof.
+  unfold flt. rewrite (Bcompare_swap 53 1024 a b).
+  destruct (Bcompare 53 1024 a b) as [[| |]|]; simpl; congruence.
+Qed.
